@@ -12,7 +12,7 @@ LEVEL = "fault_enumeration"
 RULE = ("the C09 programs (1-3 threads, direct and OVNI_TMPDIR mode, generated readdir order); one dry run under "
         "strace lists the runtime's system calls, then ONE RUN PER SINGLE FAULT: the k-th mkdir/openat/write/close/"
         "unlink/rmdir/getdents64/read of a thread fails with ENOSPC, EIO or EACCES (strace error injection), for "
-        "every k; plus runs where every write() is a real short write (LD_PRELOAD shim).  Oracle on the observable "
+        "every k; plus runs under a file size limit (RLIMIT_FSIZE with SIGXFSZ ignored: writes fail with EFBIG after a partial write) at limits around the program's own file sizes; plus runs where every write() is a real short write (shim).  Oracle on the observable "
         "outcome: (A) the program terminated abnormally or with a non-zero status and printed a diagnostic, or "
         "(B) it exited 0 and every thread has a complete copy (stream.obs equal to the expected flushed events and "
         "stream.json with finished=1 in the same directory) in the final directory - or, only if a diagnostic was printed, in the temporary one - and "
@@ -141,6 +141,36 @@ def run(case, ctx):
                     outcomes[oc] = outcomes.get(oc, 0) + 1
                     if s in ("write", "read", "openat", "unlink", "getdents64"):
                         nt += 1
+        # a file size limit ("quota reached"): every write that would make a file longer than L bytes
+        # fails with EFBIG after a partial write up to L; one run per limit around the sizes of this
+        # program's own files
+        biggest = max(len(v) for v in full.values())
+        limits = sorted({1, 8, 9, 64, 700, biggest // 2, biggest - 1} - {0, -1})
+        limits = [L for L in limits if L < biggest]
+        if ctx.tier == "quick":
+            limits = [L for i, L in enumerate(limits) if (i + pick) % 2 == 0]
+        frees = [i for i, l in enumerate(lines) if l.endswith(" free")]
+        for li, L in enumerate(limits):
+            wd = os.path.join(base, "k")
+            shutil.rmtree(wd, ignore_errors=True)
+            envL = dict(env)
+            scriptL = script
+            if li % 2 == 0 or not frees:
+                envL["RTDRV_FSIZE"] = str(L)
+                when = "from the start"
+            else:
+                # the limit only starts right before a thread is freed (the streams are on disk by then;
+                # in TMPDIR mode the copy to the final directory runs into it)
+                at = frees[(li // 2 + pick) % len(frees)]
+                who = lines[at].split()[0]
+                scriptL = "\n".join(lines[:at] + ["%s fsize %d" % (who, L)] + lines[at:]) + "\n"
+                when = "set right before '%s'" % lines[at]
+            r = inject.run(ctx.shared["drv"], scriptL, wd, tmpdir_mode=case["tmpdir"], env=envL, nthreads=nth)
+            nfaults += 1
+            what = "file size limit of %d bytes %s (%s mode, readdir order %d)" % (L, when, "TMPDIR" if case["tmpdir"] else "direct", case["readdir"])
+            oc = judge_outcome(ctx, case, r, full, what)
+            outcomes[oc] = outcomes.get(oc, 0) + 1
+            nt += 1
         # short writes
         env2 = rt.shim_env(ctx.shared["shim"], short=("half" if case["readdir"] else "one"), readdir=case["readdir"])
         wd = os.path.join(base, "k")
